@@ -295,7 +295,11 @@ double strtod(const char *s, char **endptr) {
     if (kind == 'g') {
       union { double d; uint64_t u; } cv; cv.u = bits;
       if (cv.d != cv.d) { double r = nondet_double(); __CPROVER_assume(r != r); return r; }   /* "nan" -> some NaN */
-      if (prec >= 17) return cv.d;                                   /* DBL_DECIMAL_DIG round trip */
+      if (prec >= 17) {                                              /* DBL_DECIMAL_DIG round trip */
+        /* glibc reports ERANGE for a result that is subnormal (underflow) although the value is exact */
+        if (cv.d != 0.0 && (cv.u & 0x7ff0000000000000ull) == 0) verif_errno = ERANGE;
+        return cv.d;
+      }
       double r = nondet_double(); return r;                          /* too few digits: nothing known */
     }
     double r = nondet_double(); return r;
@@ -314,7 +318,11 @@ float strtof(const char *s, char **endptr) {
       union { double d; uint64_t u; } cv; cv.u = bits;
       if (cv.d != cv.d) { float r = nondet_float(); __CPROVER_assume(r != r); return r; }
       float f = (float)cv.d;
-      if (prec >= 9 && (double)f == cv.d) return f;                  /* FLT_DECIMAL_DIG round trip of a float value */
+      if (prec >= 9 && (double)f == cv.d) {                          /* FLT_DECIMAL_DIG round trip of a float value */
+        union { float f; uint32_t u; } cf; cf.f = f;
+        if (f != 0.0f && (cf.u & 0x7f800000u) == 0) verif_errno = ERANGE;   /* subnormal float: glibc sets ERANGE */
+        return f;
+      }
       float r = nondet_float(); return r;
     }
     float r = nondet_float(); return r;
